@@ -55,6 +55,24 @@ def run_unit(args):
     T = targets()
     t0 = time.time()
     out = {"case": case.name, "function": "%s.%s" % (case.module, case.function), "obligations": [], "conformance": None, "standin": None, "error": None}
+    if getattr(case, "is_bounded", False):
+        rng = random.Random(seed * 7919 + idx)
+        bd = {"evaluations": 0, "violations": [], "labels": {}}
+        try:
+            for label, region, values, thunk in case.bounded_checks(tier, rng):
+                bd["evaluations"] += 1
+                bd["labels"][label] = bd["labels"].get(label, 0) + 1
+                try:
+                    r = thunk()
+                except Exception as e:  # noqa: BLE001
+                    r = "check crashed: %r" % (e,)
+                if r is not None and sum(1 for v in bd["violations"] if v["label"] == label) < 2:
+                    bd["violations"].append({"label": label, "region": region, "values": contract.jsonable(values), "what": r[:400]})
+        except Exception:  # noqa: BLE001
+            out["error"] = traceback.format_exc()
+        out["bounded"] = bd
+        out["seconds"] = time.time() - t0
+        return out
     try:
         want = lambda short: prop in case.props_of(short)  # noqa: E731
         timeout = 20000 if tier == "quick" else 120000
@@ -148,6 +166,12 @@ def case_from_replay(doc):
 def do_replay(path):
     doc = json.load(open(path))
     case = case_from_replay(doc)
+    if doc.get("bounded_label"):
+        r = case.replay_bounded(doc["bounded_label"], contract.unjson(doc["values"]))
+        print("function   :", doc["function"])
+        print("inputs     :", doc["values"], doc["bounded_label"])
+        print("real code  :", r)
+        return 1 if r else 0
     if doc.get("values") is None:
         print("replay file carries no input (no-failing-input-found); obligation: %s" % doc["obligation"])
         print(doc.get("solver_output", ""))
@@ -176,7 +200,7 @@ def check_property(prop, tier="quick", seed=0):
     for idx, case in enumerate(cases):
         ex = {}
         for kf in known:
-            if not _case_matches(kf, case):
+            if kf.get("bounded") or getattr(case, "is_bounded", False) or not _case_matches(kf, case):
                 continue
             wit = contract.unjson(kf["witness"])
             try:
@@ -210,7 +234,25 @@ def check_property(prop, tier="quick", seed=0):
     conf_cases = 0
     standin_cases = 0
     used = set()
+    bounded_evals = 0
+    bounded_list = []
+    all_known = [k for k in load_known() if (k.get("property") == prop or prop in k.get("also", [])) and not k.get("fixed") and k.get("bounded")]
     for case, r in zip(cases, results):
+        bd = r.get("bounded")
+        if bd:
+            bounded_evals += bd["evaluations"]
+            bounded_list.append({"case": r["case"], "evaluations": bd["evaluations"], "variants": bd["labels"]})
+            for v in bd["violations"]:
+                kfs = [k for k in all_known if _case_matches(k, case) and k["region"] == v["region"]]
+                if kfs:
+                    if kfs[0] not in known_reported:
+                        known_reported.append(kfs[0])
+                        lines.append("KNOWN-FINDING: property=%s %s [%s, %s] %s" % (prop, kfs[0]["what"], r["case"], v["label"], v["what"][:200]))
+                    continue
+                path = write_replay(prop, case, r["case"] + ":" + v["label"], v["values"], {"bounded_label": v["label"], "real_code": v["what"], "confirmed": True, "found_by": "bounded check on the real code"})
+                lines.append("VIOLATION property=%s replay=%s" % (prop, path))
+                lines.append("  bounded check %s %s: %s" % (r["case"], v["label"], v["what"][:300]))
+                violations += 1
         if r["error"]:
             checker_errors.append("%s: %s" % (r["case"], r["error"].strip().splitlines()[-1]))
         cf = r.get("conformance")
@@ -306,15 +348,17 @@ def check_property(prop, tier="quick", seed=0):
             "undecided": [{"name": o["name"], "detail": o["detail"]} for o in undecided],
             "bounded": spec.get("bounded", []),
             "bounded_standin_evaluations": standin_cases,
+            "bounded_checks": bounded_list,
+            "bounded_evaluations": bounded_evals,
             "conformance": {"cases_model_vs_numpy": conf_cases, "mismatches": sum(len(r["conformance"]["mismatches"]) for r in results if r.get("conformance"))},
-            "known_findings": [{"obligation": k["obligation"], "region": k["region"], "what": k["what"]} for k in known_reported],
+            "known_findings": [{"obligation": k.get("obligation", "bounded"), "region": k["region"], "what": k["what"]} for k in known_reported],
             "obligation_list": [{"name": o["name"], "status": o["status"], "solver": o["solver"], "seconds": round(o["seconds"], 4), "queries": o["queries"], "smt_size": o["size"]} for o in all_obs],
             "samples": [{"obligation": o["name"], "negated_goal": o["sample"]} for o in all_obs if o["sample"]][:4] or [{"obligation": o["name"]} for o in all_obs[:3]],
-            "evaluations": n_ob + conf_cases + standin_cases,
+            "evaluations": n_ob + conf_cases + standin_cases + bounded_evals,
             "distinct_nontrivial": n_dis,
             "rule": "one evaluation per named obligation (each covers all lengths and contents symbolically) plus one per concrete conformance / stand-in case; non-trivial = obligations discharged by a solver query",
         },
-        "assumptions": spec["assumptions"] + ["known-finding region excluded: %s / %s" % (k["obligation"], k["region"]) for k in known_reported],
+        "assumptions": spec["assumptions"] + ["known-finding region excluded: %s / %s" % (k.get("obligation", "bounded"), k["region"]) for k in known_reported],
         "wall_s": round(wall, 2),
         "violations": violations,
     }
